@@ -96,12 +96,25 @@ func VH_C07() {
 	if useJSON {
 		root.SetJSONMode(true) // children inherit the format at creation
 	}
+	// optionally every logger of the chain is first given one and the same
+	// prepared attribute set (with spare capacity), as WithAttrs1/SetAttrs1 allow
+	var prepared Attrs
+	sharedTag := 0
+	if vParam("shared", 0) == 1 {
+		sharedTag = next()
+		prepared = make(Attrs, 1, 4)
+		prepared[0] = NewAttr("s", sharedTag)
+	}
 	cur := root
 	for d := 0; d < depth; d++ {
 		if d > 0 {
 			cur = cur.New("c" + strconv.Itoa(d))
 		}
 		var own []vKV
+		if prepared != nil {
+			cur.SetAttrs1(prepared)
+			own = append(own, vKV{"s", sharedTag})
+		}
 		for n := vChoose(vParam("own", 2) + 1); n > 0; n-- {
 			e := vKV{keys[vChoose(3)], next()}
 			own = append(own, e)
